@@ -229,6 +229,20 @@ CLAIMED = {
         technique="Lean 4 proof (induction over steps with an existential triangular factor) + Gauss-Hermite quadrature of the real propagate_free step",
         note=TB + " Partial: the O(dt^2) order and the Taylor-remainder bound are validated on the implementation, not proved; qr is assumed to meet its specification (monitored in C13).",
     ),
+    "C06": dict(
+        category="proof",
+        text=("Partial. Lean theorems (single-determinant model, every dimension): shifting h1[s] by lambda*1 shifts the local energy of every walker by "
+              "lambda*N_s (per-spin trace of the AD density matrix with one energy block); without two-body term the local energy is "
+              "h0 + sum_s tr((C^H W)^-1 C^H h W) and equals h0 + sum_occ eps_i for walkers spanning eigenvectors; Hellmann-Feynman: the product-rule "
+              "derivative of tr(C^T h C) along any first-order orthonormality-preserving orbital change is tr(rho O) (with C18's theorem that the "
+              "library's eigh rule is such a change). The derivative clauses themselves are statements about JAX's AD engine and are validated on the "
+              "implementation, not proved: jvp/vjp of sampler.propagate_phaseless_ad* exactly as driver.afqmc calls them vs central finite differences "
+              "at h=1e-3,1e-4,1e-5 of the same seeded function with NON-symmetric observable matrices, vjp contraction vs jvp, primal vs plain sampler, "
+              "analytic one-body limit, per-spin traces, 2-RDM gradient vs finite difference."),
+        design_ref="DESIGN.md §5/C06",
+        technique="Lean 4 proof of the closed forms (symmetry, one-body limit, Hellmann-Feynman) + differential validation of the AD entry points (forward vs reverse vs finite difference)",
+        note=TB + " The AD engine (jvp, vjp, checkpoint, custom_jvp wiring, lax.scan transposition) is outside the model: a theorem cannot exhibit its failures; they are searched for by finite differences.",
+    ),
     "C18": dict(
         category="proof",
         text=("Lean theorems: for every size, with A V = V diag(w), V V^T = 1 and F_ij = 1/(w_j - w_i) off the diagonal, the rule's dV = V (F o V^T A' V), "
